@@ -18,7 +18,7 @@ CONSTANTS
     KsSplit,        \* keys 1..KsSplit live in one keyspace, the larger ones in a second keyspace
                     \* (under the same user keys); KsSplit >= every key: a single keyspace
     MaxOpsPerTx,
-    Methods,        \* subset of {"get", "size_of", "scan", "range_lo", "range_hi", "range_pt", "insert", "remove", "rmw", "helper"}
+    Methods,        \* subset of ReadMethods \cup {"insert", "remove", "rmw", "helper"}
     SingleWriter,   \* TRUE: SingleWriterTxDatabase (write_tx holds a process-wide mutex)
     EnGC,           \* tracker gc + pruning of the committed table
     FixSizeOf,      \* model of repair: size_of records its read
@@ -56,27 +56,44 @@ KsOf(k) == IF k <= KsSplit THEN 1 ELSE 2
 \* what transaction t reads for k: own write first, then the snapshot
 TxVal(r, k) == IF r.w[k].set THEN r.w[k].v ELSE ValAt(k, r.inst)
 \* evaluation of a read method on a given overlay function
+\* range reads: one method per shape of (start bound, end bound) the conflict manager
+\* distinguishes (Unbounded / Included / Excluded on either side; prefix() is the (Included,
+\* Excluded) shape).  arg is the key the bounds are built from:
+\*   range_lo ..=a    range_hi a..    range_pt a..=a    range_ue ..a     range_eu (a, ..)
+\*   range_ie a..a+1  range_ei (a, a+1]                 range_ee (a, a+2)
+\* prefix(a): the keys that start with a.  Which keys are prefixes of which is a fact about the
+\* concretisation (the replay uses its key scheme 0 - "a", "ab", "b\\0", "b\\0\\0" - for behaviours
+\* with prefix reads): key 1 is a proper prefix of key 2, key 3 of key 4; with two keyspaces
+\* (KsSplit = 2) both hold the user keys 1, 2, which gives the same pairs.
+RangeMethods == {"range_lo", "range_hi", "range_pt", "range_ue", "range_eu", "range_ie", "range_ei", "range_ee", "prefix"}
+PfxPairs == {<<1, 2>>, <<3, 4>>}
+InRange(m, a, x) ==
+    CASE m = "prefix" -> x = a \/ <<a, x>> \in PfxPairs
+      [] m = "range_lo" -> x <= a
+      [] m = "range_hi" -> x >= a
+      [] m = "range_pt" -> x = a
+      [] m = "range_ue" -> x < a
+      [] m = "range_eu" -> x > a
+      [] m = "range_ie" -> a <= x /\ x < a + 1
+      [] m = "range_ei" -> a < x /\ x <= a + 1
+      [] m = "range_ee" -> a < x /\ x < a + 2
+ReadMethods == {"get", "size_of", "scan"} \cup RangeMethods
+
 EvalRead(m, arg, val) ==
     IF m \in {"get", "size_of", "rmw"} THEN val[arg]
     ELSE IF m = "scan" THEN (* the keyspace of arg *) {<<k, val[k]>> : k \in {x \in Keys : KsOf(x) = KsOf(arg) /\ val[x] # 0}}
-    ELSE IF m = "range_lo" THEN (* range(..=arg): keys <= arg of arg's keyspace *)
-         {<<k, val[k]>> : k \in {x \in Keys : KsOf(x) = KsOf(arg) /\ x <= arg /\ val[x] # 0}}
-    ELSE IF m = "range_hi" THEN (* range(arg..): keys >= arg of arg's keyspace *)
-         {<<k, val[k]>> : k \in {x \in Keys : KsOf(x) = KsOf(arg) /\ x >= arg /\ val[x] # 0}}
-    ELSE (* range_pt: range(arg..=arg), the single-point range *)
-         {<<k, val[k]>> : k \in {x \in Keys : x = arg /\ val[x] # 0}}
+    ELSE (* a range of arg's keyspace *)
+         {<<k, val[k]>> : k \in {x \in Keys : KsOf(x) = KsOf(arg) /\ InRange(m, arg, x) /\ val[x] # 0}}
 
 \* the read footprint the CODE records for each method
 Footprint(m, arg) ==
     IF m \in {"get", "rmw"} THEN {<<"single", arg>>}
     ELSE IF m = "size_of" THEN (IF FixSizeOf THEN {<<"single", arg>>} ELSE {})
     ELSE IF m = "scan" THEN {<<"all", KsOf(arg)>>}
-    ELSE {<<m, arg>>}      \* range_lo / range_hi / range_pt: the range that was asked for
+    ELSE {<<m, arg>>}      \* a range method: the range that was asked for
 Covers(fp, k) == \/ fp[1] = "all" /\ KsOf(k) = fp[2]
                  \/ fp[1] = "single" /\ fp[2] = k
-                 \/ fp[1] = "range_lo" /\ KsOf(k) = KsOf(fp[2]) /\ k <= fp[2]
-                 \/ fp[1] = "range_hi" /\ KsOf(k) = KsOf(fp[2]) /\ k >= fp[2]
-                 \/ fp[1] = "range_pt" /\ k = fp[2]
+                 \/ fp[1] \in RangeMethods /\ KsOf(k) = KsOf(fp[2]) /\ InRange(fp[1], fp[2], k)
 
 \* tracker
 Cnt(i) == LET r == {p \in trk.cnt : p[1] = i} IN IF r = {} THEN 0 ELSE (CHOOSE p \in r : TRUE)[2]
@@ -112,7 +129,7 @@ Begin(t) ==
 \* a read method: result observed, footprint recorded
 Read(t, m, arg) ==
     /\ tx[t].st = "open" /\ tx[t].nops < MaxOpsPerTx
-    /\ m \in Methods \cap {"get", "size_of", "scan", "range_lo", "range_hi", "range_pt"}
+    /\ m \in Methods \cap ReadMethods
     /\ LET r == tx[t]
            val == [k \in Keys |-> TxVal(r, k)]
            res == EvalRead(m, arg, val)
